@@ -5,6 +5,7 @@ import (
 	"go/ast"
 	"go/token"
 	"path/filepath"
+	"strconv"
 	"strings"
 )
 
@@ -21,6 +22,8 @@ type smCfg struct {
 	methods  map[string]string  // receiver methods callable as statements -> Lean function (takes s and extraArgs)
 	extraArg string             // e.g. " now" appended to calls of sibling methods
 	special  func(en *env, e ast.Expr, want kind) (string, kind, bool)
+	loaded   map[string]string // local variable -> mutable field whose (atomically loaded) value it holds
+	rmw      []string          // stores whose value was computed from an earlier load of the same field: not one atomic update
 }
 
 func (c *smCfg) env() *env {
@@ -52,6 +55,26 @@ func (c *smCfg) env() *env {
 		return "", kUnknown, false
 	}
 	return en
+}
+
+// readsField: does the expression read the receiver's mutable field f (directly, through an atomic
+// load, or through a local variable that holds an earlier load of it)?
+func (c *smCfg) readsField(e ast.Expr, f string) bool {
+	found := false
+	ast.Inspect(e, func(n ast.Node) bool {
+		switch t := n.(type) {
+		case *ast.SelectorExpr:
+			if id, ok := t.X.(*ast.Ident); ok && id.Name == c.recv && t.Sel.Name == f {
+				found = true
+			}
+		case *ast.Ident:
+			if c.loaded[t.Name] == f {
+				found = true
+			}
+		}
+		return !found
+	})
+	return found
 }
 
 // addrField recognises &recv.field
@@ -122,6 +145,14 @@ func (c *smCfg) trBody(en *env, stmts []ast.Stmt, retKind kind, indent string, r
 				want = kInt
 			}
 			rhs, k := en.tr(t.Rhs[0], want)
+			for f := range c.mut {
+				if c.readsField(t.Rhs[0], f) {
+					if c.loaded == nil {
+						c.loaded = map[string]string{}
+					}
+					c.loaded[id.Name] = f
+				}
+			}
 			fmt.Fprintf(&sb, "%slet %s : %s := %s\n", indent, id.Name, leanType(k), rhs)
 			en.vars[id.Name] = binding{id.Name, k}
 		case *ast.ExprStmt:
@@ -137,6 +168,9 @@ func (c *smCfg) trBody(en *env, stmts []ast.Stmt, retKind kind, indent string, r
 					bail("atomic store target not a receiver field")
 				}
 				v, _ := en.tr(call.Args[1], c.mut[f])
+				if c.readsField(call.Args[1], f) {
+					c.rmw = append(c.rmw, fmt.Sprintf("%s := %s", f, v))
+				}
 				fmt.Fprintf(&sb, "%slet s : %s := { s with %s := %s }\n", indent, c.stType, f, v)
 			case fn == "atomic.AddUint64" || fn == "atomic.AddInt64":
 				f, ok := c.addrField(call.Args[0])
@@ -278,6 +312,7 @@ func genBreaker() string {
 			if len(fd.Recv.List[0].Names) == 1 {
 				cfg.recv = fd.Recv.List[0].Names[0].Name
 			}
+			cfg.loaded = nil
 			body := cfg.trBody(cfg.env(), fd.Body.List, mm.ret, "  ", nil)
 			rt := "BreakerSt"
 			if mm.ret != kUnknown {
@@ -316,7 +351,17 @@ func genBreaker() string {
 		}
 		fmt.Fprintf(&sb, "def Breaker.wrapper_%s_delegates : Bool := %v\n", w[0], good)
 	}
+	sb.WriteString("/-- updates of a field whose new value is computed from an earlier load of the same field (a lost-update\n    window between concurrent callers); the concurrent model takes every update to be ONE atomic operation -/\n")
+	fmt.Fprintf(&sb, "def Breaker.nonAtomicUpdates : List String := [%s]\n", strings.Join(quoteAll(cfg.rmw), ", "))
 	sb.WriteString(tieText("Breaker.lean", "breaker"))
 	sb.WriteString("\nend Rpcx.Gen\n")
 	return sb.String()
+}
+
+func quoteAll(xs []string) []string {
+	out := make([]string, len(xs))
+	for i, x := range xs {
+		out[i] = strconv.Quote(x)
+	}
+	return out
 }
